@@ -140,6 +140,25 @@ Theorem C09_reopen_keeps_versions : forall s v k,
 Proof. exact reopen_keeps_versions. Qed.
 Print Assumptions C09_reopen_keeps_versions.
 
+(* (5) a write that is refused (block gas exhausted) has NO effect: the state, what the next block
+   commit persists and its tree calls are those without the write; an accepted block-level write
+   is in the block cache.  So a commit persists exactly the Sets that returned success. *)
+Theorem C09_refused_set_no_effect : forall s k v s', step s (Set_ k v) = (OErr, s') -> s' = s.
+Proof. exact refused_set_no_effect. Qed.
+Print Assumptions C09_refused_set_no_effect.
+Theorem C09_refused_set_not_committed : forall s k v, (step s (Set_ k v)).1 = OErr ->
+  step (step s (Set_ k v)).2 BlockCommit = step s BlockCommit.
+Proof. exact refused_set_not_committed. Qed.
+Theorem C09_accepted_set_in_cache : forall s k v, sess s = None -> (step s (Set_ k v)).1 = OUnit ->
+  oget (cache (step s (Set_ k v)).2) k = Some v.
+Proof. exact accepted_set_in_cache. Qed.
+(* non-vacuity: limit 220 = exactly one 1-byte Set; the second Set is refused and not persisted *)
+Example C09_refused_set_example :
+  outputs (init {| recent := 1; every := 0; cycles := 0 |})
+    [Fresh (Some 220); Set_ 0%N [1%N]; Set_ 1%N [2%N]; BlockCommit; GetVersioned 1 0%N; GetVersioned 1 1%N]
+  = [OUnit; OUnit; OErr; OVersion 1; OVal (Some [1%N]); OVal None].
+Proof. vm_compute. reflexivity. Qed.
+
 (* non-vacuity under the node default (recent 10, every 100, cycles 10): three commits, a reopen;
    versions 1 and 2 (older than the last commit) still read their old values, and the seeded
    lazy-load behaviour (absent) is not what the model says *)
